@@ -66,6 +66,17 @@ def build_tree(rng, u, reg, root, i):
         pid = "%08X" % (rng.choice(ents).pel.eid if ents and rng.random() < 0.5 else rng.randrange(1 << 32))
         sub = os.path.join("event_%s_t%d" % (pid, i), "logs")
         PATH_IDS[i] = pid
+    elif rng.random() < 0.3:
+        # a directory name with characters that mean something to glob / fnmatch / a shell, next to a sibling directory
+        # that such a pattern would match and that holds files of the same names: the PEL directory is a path, not a pattern
+        meta, twin = rng.choice([("[1]", "1"), ("[1]", "1"), ("?", "x"), ("*", "zz"), ("[!a]", "b"), ("{a,b}", "a")])
+        sub = "t%d%s" % (i, meta)
+        decoy = os.path.join(root, "t%d%s" % (i, twin))
+        os.makedirs(decoy, exist_ok=True)
+        for e in ents:
+            with open(os.path.join(decoy, e.name), "wb") as f:
+                f.write(e.data)
+        DECOYS[i] = (decoy, dirs.snapshot(decoy))
     d = dirs.PelDir(os.path.join(root, sub))
     d.extend(ents)
     top = list(ents)
@@ -97,6 +108,7 @@ def build_tree(rng, u, reg, root, i):
 
 
 PATH_IDS = {}
+DECOYS = {}
 
 
 def diff(a, b):
@@ -268,6 +280,9 @@ def run(spec, ctx):
 
 def observe(ctx, d, argv, kind, arg, i, ents=None, extra_roots=()):
     roots = [d.root] + list(extra_roots)
+    if i in DECOYS:
+        decoy, snap0 = DECOYS[i]
+        ctx.count("runs.glob_named_directory_with_decoy_sibling")
     before = [dirs.snapshot(r) for r in roots]
     AUDIT["events"] = []
     AUDIT["on"] = True
@@ -277,6 +292,11 @@ def observe(ctx, d, argv, kind, arg, i, ents=None, extra_roots=()):
         AUDIT["on"] = False
     events = list(AUDIT["events"])
     after = [dirs.snapshot(r) for r in roots]
+    if i in DECOYS and os.path.isdir(DECOYS[i][0]) and dirs.snapshot(DECOYS[i][0]) != DECOYS[i][1]:
+        now = dirs.snapshot(DECOYS[i][0])
+        ctx.violation("C11/sibling-directory-touched", "peltool %s changed the sibling directory %s (%s), the PEL directory is %s" %
+                      (" ".join(argv), DECOYS[i][0], sorted(set(DECOYS[i][1]) ^ set(now))[:4] or "contents", d.root))
+        DECOYS[i] = (DECOYS[i][0], now)
     ctx.count("runs." + kind)
     ctx.count("snapshots.compared", len(roots))
     ctx.counters["audit.events"] += len(events)
